@@ -105,6 +105,7 @@ func readervecMain(args []string) int {
 	defer os.RemoveAll(tmp)
 	units := []int{2, 256, 512} // the model's abstract byte is 2 / 256 / 512 real bytes: limits and fault offsets on 512-byte boundaries too
 	var n, faults int64
+	vecIdx := 0
 	err := tlcVectorLines(*in, func(b []byte) {
 		var v readerVec
 		if err := stdjson.Unmarshal(b, &v); err != nil {
@@ -118,6 +119,7 @@ func readervecMain(args []string) int {
 			stdjson.Unmarshal(h[2], &st.e)
 			steps = append(steps, st)
 		}
+		vecIdx++
 		for ui, unit := range units {
 			for pi, payload := range readerPayloads {
 				if ui > 0 && pi%3 != int(n)%3 {
@@ -130,7 +132,7 @@ func readervecMain(args []string) int {
 				limit := uint32(v.L * unit)
 				mimetype.SetLimit(limit)
 				want := errSentinel
-				if (int(n)+pi)%2 == 1 {
+				if (vecIdx+pi+ui)%2 == 1 {
 					want = errTemp
 				}
 				sr := &scriptedReader{data: data, steps: steps, unit: unit, fault: want}
